@@ -16,7 +16,7 @@ import tempfile
 
 import fw
 
-LEAN_PROPS = ["NmlVerif.Props.C06", "NmlVerif.Props.C06Tree"]
+LEAN_PROPS = ["NmlVerif.Props.C06", "NmlVerif.Props.C06Tree", "NmlVerif.Props.C06Marks"]
 LEVEL = "proof"
 RULE = ("include graphs: random (1-9 files) and templates (k-way diamonds over a shared file, ladders in which every "
         "level includes all lower ones, one file including another several times, an HDF5 file and its includer sharing "
@@ -441,8 +441,68 @@ def run_real(case, root, cwd):
             pass
 
 
+KEPT = ["kept-sentinel.nml"]          # what the caller's list holds before the call (a path no case has)
+
+
+def run_real_kept(case, root, cwd):
+    """the same call with an `already_included` list the caller keeps: outcome class + the list after the call
+    (paths relative to the tree, in the order of the list)"""
+    import neuroml.loaders as L
+    old = os.getcwd()
+    os.chdir(os.path.join(root, *cwd))
+    lim = sys.getrecursionlimit()
+    sys.setrecursionlimit(600)
+    kept = [os.path.join(root, *KEPT)]
+    try:
+        f0 = case["fs"][0]
+        p = os.path.join(root, *f0["path"])
+        res = "ok"
+        try:
+            opt = bool(case.get("optimized"))
+            if case["entry"] == "file":
+                L.read_neuroml2_file(entry_text(case, root, cwd), include_includes=True, optimized=opt,
+                                     already_included=kept)
+            else:
+                with open(p) as fh:
+                    text = fh.read()
+                base = os.path.dirname(p) if case["base_given"] else None
+                L.read_neuroml2_string(text, include_includes=True, base_path=base, already_included=kept)
+        except RecursionError:
+            res = "outOfFuel"
+        except SystemExit:
+            res = "missing"
+        except Exception as e:  # noqa
+            s = str(e)
+            if "maximum recursion depth" in s:
+                res = "outOfFuel"
+            elif "Unrecognised extension" in s:
+                res = "badExt"
+            elif isinstance(e, (OSError, IOError)) or "does not exist" in s or "No such file" in s:
+                res = "missing"
+            else:
+                res = "exc:" + type(e).__name__ + ":" + s[:80]
+        out = []
+        for x in kept:
+            # a (missing) location above the root of the generated tree: the model's paths are clamped at the root
+            # (`norm` pops nothing from the empty path), so clamp here too
+            r = [c for c in os.path.relpath(os.path.normpath(x), root).split(os.sep)]
+            while r and r[0] == "..":
+                r = r[1:]
+            out.append(r)
+        return {"res": res, "kept": out}
+    finally:
+        sys.setrecursionlimit(lim)
+        os.chdir(old)
+        try:
+            import tables
+            tables.file._open_files.close_all()
+        except Exception:
+            pass
+
+
 _SH = None
 _SH_TRANSLATED = "unset"
+_RM = None
 
 
 def _translator():
@@ -457,9 +517,36 @@ def regenerate(ctx):
     """translator step: the include-handling code of fw.REPO's current tree -> Gen/IncludeShape.lean (`sh`, `genSameId`);
     every statement of the anchored functions that is not the modelled one is a gap"""
     global _SH_TRANSLATED
+    global _RM
     sh, gaps = _translator().regenerate(fw.REPO, os.path.join(fw.LEAN, "NmlVerif", "Gen", "IncludeShape.lean"))
     _SH_TRANSLATED = sh
+    _RM = _translator().LAST_RESTORES
     return gaps
+
+
+def probe_restores():
+    import neuroml.loaders as L
+    try:
+        return "del already_included[" in inspect.getsource(L.read_neuroml2_file)
+    except Exception:
+        return False
+
+
+def tree_restores():
+    """do the entry points of the tree under test take back the marks of a failed read (C08's repair)?  Decided by the
+    translator from the source; when it had to refuse (or in a replay, where no regenerate step ran), by looking at the
+    loaded library"""
+    global _RM
+    if _RM is None:
+        try:
+            if _SH_TRANSLATED == "unset":
+                _translator().analyse(fw.REPO)
+                _RM = _translator().LAST_RESTORES
+        except Exception:
+            _RM = None
+        if _RM is None:
+            _RM = probe_restores()
+    return bool(_RM)
 
 
 def probe_shares_list():
@@ -497,6 +584,19 @@ def model_line(case, cwd):
     else:
         j["entry_file"] = f0["path"]
     return json.dumps(j)
+
+
+def model_line_kept(case, cwd):
+    j = json.loads(model_line(case, cwd))
+    j["mode"] = "file-kept" if case["entry"] == "file" else "string-kept"
+    j["rm"] = tree_restores()
+    j["al0"] = [KEPT]
+    return json.dumps(j)
+
+
+def canon_model_kept(r):
+    # the model keeps the list newest-first, Python appends
+    return {"res": r.get("res", "error:" + str(r)), "kept": list(reversed(r.get("kept", [])))}
 
 
 def canon_model(r, case):
@@ -594,10 +694,23 @@ def no_cwd_hit(case, cwd, orc):
     return not any((not is_abs(h)) and tuple(norm(join(cwd, h))) in fsd for h in hs)
 
 
-def check_case(ctx, case, root, model_out):
-    """model_out: list of canonical model results, one per cwd"""
+def check_case(ctx, case, root, model_out, kept_out=None):
+    """model_out: list of canonical model results, one per cwd; kept_out: the same for the call with a caller-kept list"""
     results, orcs = [], []
     for ci, cwd in enumerate(case["cwds"]):
+        if kept_out is not None and case["entry"] in ("file", "string"):
+            # --- correspondence, stream kept-list: the caller's `already_included` after the call, failed reads included
+            rk, mk = run_real_kept(case, root, cwd), kept_out[ci]
+            ctx.corr_evals += 1
+            if "outOfFuel" in (rk["res"], mk["res"]):
+                ctx.count("kept:recursion-error-not-compared")
+                if rk["res"] != mk["res"]:
+                    ctx.disagree("kept-list", {"case": case, "cwd": cwd}, rk, mk)
+            else:
+                ctx.count("kept:ok" if rk["res"] == "ok" else
+                          ("kept:failed-read-marks-left" if len(rk["kept"]) > 1 else "kept:failed-read-list-as-at-entry"))
+                if rk != mk:
+                    ctx.disagree("kept-list", {"case": case, "cwd": cwd}, rk, mk)
         real = run_real(case, root, cwd)
         results.append(real)
         canon = {"fs": case["fs"], "cwd": cwd, "entry": case["entry"], "base": case["base_given"],
@@ -749,16 +862,31 @@ def run_cases(ctx, cases):
             for _ in c["cwds"]:
                 mouts.append(canon_model(json.loads(out[k]), c))
                 k += 1
+    klines = [model_line_kept(c, cwd) for c in cases if c["entry"] in ("file", "string") for cwd in c["cwds"]]
+    rc, out = fw.run_driver("C06", klines)
+    kouts = {}
+    if rc != 0 or len(out) != len(klines):
+        ctx.disagree("driver", "driver failed on the kept-list lines rc=%s" % rc, "\n".join(out[-5:]), None)
+    else:
+        k = 0
+        for ci, c in enumerate(cases):
+            if c["entry"] in ("file", "string"):
+                kouts[ci] = [canon_model_kept(json.loads(x)) for x in out[k:k + len(c["cwds"])]]
+                k += len(c["cwds"])
     k = 0
+    ctx.count("tree:entry-points-restore-marks" if tree_restores() else "tree:entry-points-leave-marks")
+    if _translator().LAST_RESTORES is not None and bool(_translator().LAST_RESTORES) != probe_restores():
+        ctx.disagree("shape", "translator and loaded library disagree on whether a failed read takes its marks back",
+                     probe_restores(), _translator().LAST_RESTORES)
     ctx.count("tree:hdf5-loader-shares-include-list" if tree_shares_list() else "tree:hdf5-parser-own-include-list")
     if _SH_TRANSLATED is not None and bool(_SH_TRANSLATED) != probe_shares_list():
         ctx.disagree("shape", "translator and loaded library disagree on how HDF5 includes are resolved",
                      probe_shares_list(), _SH_TRANSLATED)
-    for c in cases:
+    for ci, c in enumerate(cases):
         root = os.path.realpath(tempfile.mkdtemp(prefix="verif_c06_"))
         try:
             materialise(c, root)
-            check_case(ctx, c, root, mouts[k:k + len(c["cwds"])])
+            check_case(ctx, c, root, mouts[k:k + len(c["cwds"])], kouts.get(ci))
         finally:
             shutil.rmtree(root, ignore_errors=True)
         k += len(c["cwds"])
